@@ -19,9 +19,12 @@ func clone(c *Case) *Case {
 	return out
 }
 
+// hasKey matches on the clause only: which dimension a difference is attributed
+// to is derived from the configuration, which the minimiser is busy changing.
 func hasKey(vs []common.Verdict, key string) *common.Verdict {
+	clause := strings.SplitN(key, "/", 2)[0]
 	for i := range vs {
-		if vs[i].Property == "C16" && vs[i].Key() == key {
+		if vs[i].Property == "C16" && vs[i].Clause == clause {
 			return &vs[i]
 		}
 	}
@@ -138,6 +141,34 @@ func minimise(b *common.Build, st *Stats, c *Case, key, scratch string) (*Case, 
 		}
 	}
 	return best, v, log
+}
+
+// confirmFlaky repeats the baseline configuration; differing outputs between identical runs are a C16 violation.
+func confirmFlaky(b *common.Build, st *Stats, c *Case, scratch string) (*Case, *common.Verdict, []string) {
+	cand := clone(c)
+	cand.AutoSites = false
+	cand.Configs = []Config{c.Configs[0]}
+	for i := 0; i < 9; i++ {
+		r := c.Configs[0]
+		r.Label = fmt.Sprintf("repeat %d", i+1)
+		cand.Configs = append(cand.Configs, r)
+	}
+	for attempt := 0; attempt < 3; attempt++ {
+		dir, _ := os.MkdirTemp(scratch, "flaky-")
+		out := RunCase(b, st, cand, dir)
+		os.RemoveAll(dir)
+		if out.Infra != "" || out.Skipped != "" {
+			return nil, nil, nil
+		}
+		for i := range out.Verdicts {
+			v := out.Verdicts[i]
+			if v.Clause == "D1" {
+				v.Clause, v.Disc = "D3", "output-varies-between-identical-runs"
+				return cand, &v, out.Log
+			}
+		}
+	}
+	return nil, nil, nil
 }
 
 // Check runs a batch for C16.
@@ -259,6 +290,16 @@ func Check(tier string) int {
 		if common.KnownOpen(findings, prop, k) == nil && len(reps) < 6 {
 			mc, mv, mlog := minimise(b, st, f.Case.(*Case), k, scratch)
 			if mc == nil {
+				// For C16 a difference that does not reproduce is itself the subject of the property:
+				// run the baseline configuration repeatedly; if identical runs disagree, that is the violation.
+				if fc, fv, flog := confirmFlaky(b, st, f.Case.(*Case), scratch); fc != nil {
+					f.Case, f.Verdict, f.Trace = fc, *fv, flog
+					f.Note = "outputs vary between identical runs (nondeterminism the seams do not own, e.g. file parse order); the replay repeats the baseline configuration and reproduces with high probability only"
+					reps = append(reps, f)
+					continue
+				}
+			}
+			if mc == nil {
 				writeEvidence(tier, seed, start, st, b, ran, usable, runs, skipped, samples, 0, "a violation did not reproduce")
 				common.Infra("violation %s of case %d did not reproduce when re-run: harness nondeterminism", k, f.Index)
 			}
@@ -334,6 +375,13 @@ func Replay(r *common.Replay) int {
 	}
 	for _, l := range out.Log {
 		fmt.Println(l)
+	}
+	if r.Verdict.Clause == "D3" {
+		for i := range out.Verdicts {
+			if out.Verdicts[i].Clause == "D1" {
+				out.Verdicts[i].Clause, out.Verdicts[i].Disc = "D3", "output-varies-between-identical-runs"
+			}
+		}
 	}
 	if v := hasKey(out.Verdicts, r.Verdict.Key()); v != nil {
 		fmt.Printf("reproduced: %s %s expected %s observed %s (%s)\n", v.Property, v.Key(), v.Expected, v.Observed, v.Detail)
